@@ -81,6 +81,26 @@ def run():
         i = _first(e, lambda x: x.get("ev") == "mem" and x.get("res") == "ok" and x["got"] < x["n"])
         e[i]["got"] = e[i]["n"]
     expect("MemReader/fabricated-length", "Trace_MemReader", evs, m_mem)
+    # Ptrace sequence validation: a recorded dump is accepted; the same trace with one detach (or the SIGCONT) removed is not
+    def seq(evs, name):
+        tf = os.path.join(wd, f"{name}.ndjson")
+        core.export_lines(evs, tf)
+        res = core.run_tlc("Trace_PtraceSeq", "Trace_PtraceSeq", workers=1, timeout=300, env={"TRACE": tf}, tag=name, jvm="-Xss1g -Dtlc2.tool.queue.IStateQueue=StateDeque")
+        v = (res["printed"].get("VERDICT") or [{"reached": -1, "events": 0}])[-1]
+        return v["reached"] == v["events"], v
+    good = core.read_ndjson(os.path.join(core.SPEC, "selftest_ptrace_seq.ndjson"))
+    ok0, _ = seq(good, "seq_good")
+    i = _first(good, lambda x: x.get("ev") == "Detach" and x.get("t") == 3)
+    ok1, v1 = seq(good[:i] + good[i + 1:], "seq_no_detach")
+    j = _first(good, lambda x: x.get("ev") == "SigCont")
+    ok2, v2 = seq(good[:j] + good[j + 1:], "seq_no_sigcont")
+    obs = copy.deepcopy(good)
+    obs[-1]["delivered"][1] = 0
+    ok3, v3 = seq(obs, "seq_lost_signal")
+    ok = ok0 and not ok1 and not ok2 and not ok3
+    print(f"selftest PtraceSeq: recorded trace accepted={ok0}; without one detach accepted={ok1} (stops at {v1['firstUnmatched']}); without SIGCONT accepted={ok2}; with a lost signal in the observation accepted={ok3} -> {'ok' if ok else 'FAILED'}")
+    if not ok:
+        failures.append("PtraceSeq")
     if failures:
         print("SELFTEST FAILED:", failures)
         return 2
